@@ -46,7 +46,7 @@ FIELDS = {
     },
     'TableGroup': {
         'database': 'Optional[Database]', 'name': 'str', 'items': 'List[Table]',
-        'comment': 'Optional[str]', 'note': 'Optional[Note]', 'color': 'Optional[str]',
+        'comment': 'Optional[str]', '_note': 'Optional[Note]', 'color': 'Optional[str]',
     },
     'Expression': {'text': 'str'},
     'Reference': {
